@@ -1,5 +1,6 @@
 import SciVerif.Tie.Task
 import SciVerif.Model.Fmt
+import SciVerif.Tie.C20Sem
 /-!
 Line-protocol driver (Tie B): one request per line on stdin (tab separated), one response line.
 It runs the *executable models*, instantiated with the semantics records Tie A regenerated from
@@ -174,6 +175,41 @@ def fmtEnv (pattern : String) (ins subs outs params tags prepend : String) : Env
 
 end Pure
 
+/-! ## audit reports -/
+namespace Rep
+open Report
+
+/-- parse a pre-order token list `id:start:nchildren ...` into a tree -/
+def parseTree : Nat → List String → Option (AT × List String)
+  | 0, _ => none
+  | fuel + 1, tok :: rest =>
+    match tok.splitOn ":" with
+    | [i, s, n] =>
+      match i.toNat?, s.toNat?, n.toNat? with
+      | some i, some s, some n =>
+        let rec kids (k : Nat) (toks : List String) (acc : List AT) : Option (List AT × List String) :=
+          match k with
+          | 0 => some (acc.reverse, toks)
+          | k + 1 => match parseTree fuel toks with
+            | some (t, toks') => kids k toks' (t :: acc)
+            | none => none
+        match kids n rest [] with
+        | some (ups, rest') => some (.node ⟨i, s, i⟩ ups, rest')
+        | none => none
+      | _, _, _ => none
+    | _ => none
+  | _, [] => none
+
+def parseRecs (s : String) : List Rec :=
+  (if s.isEmpty then [] else s.splitOn ",").filterMap fun it =>
+    match it.splitOn ":" with
+    | [i, st] => match i.toNat?, st.toNat? with | some i, some st => some ⟨i, st, i⟩ | _, _ => none
+    | _ => none
+
+def semOf (s : String) : SortSem :=
+  if s == "src" then Tie.sortSem else if s == "timeMap" then .timeMap else if s == "sliceSort" then .sliceSort else .other
+end Rep
+
 def handle (line : String) : String :=
   match line.splitOn "\t" with
   | ["sem"] => semLine
@@ -241,6 +277,16 @@ def handle (line : String) : String :=
   | ["tmpdir", name, ins, subs, params, tags] =>
     let id : Fmt.Identity := { name := name.toList, ins := Pure.kvs ins, subs := Pure.kvl subs, params := Pure.kvs params, tags := Pure.kvs tags }
     Pure.str (Fmt.pathPrefix id) ++ "\t" ++ Pure.str (Fmt.preimage id)
+  | ["flatten", tree] =>
+    match Rep.parseTree 10000 (tree.splitOn " ") with
+    | some (t, _) =>
+      let m := Report.extract t
+      let ids := (Report.keys m).toArray.qsort (· < ·)
+      ",".intercalate (ids.toList.map toString)
+    | none => "bad-tree"
+  | ["listing", sem, recs] =>
+    ",".intercalate ((Report.listing (Rep.semOf sem) (Rep.parseRecs recs)).map fun r => toString r.id)
+  | ["sortsem"] => repr Tie.sortSem |>.pretty
   | ["task.c01search"] =>
     match TaskSim.c01Search taskSem with
     | none => "none"
